@@ -432,7 +432,7 @@ pub fn digest_error(e: lexpr::parse::Error, seen: &Seen<'_>, fired: &[Fired], mo
     let mut src_id = None;
     if let Some(src) = std::error::Error::source(&e) {
         if let Some(ioe) = src.downcast_ref::<std::io::Error>() {
-            src_id = world::injected_id(ioe);
+            src_id = world::fired_id(ioe, fired);
         }
     }
     match cat {
@@ -458,7 +458,7 @@ pub fn digest_error(e: lexpr::parse::Error, seen: &Seen<'_>, fired: &[Fired], mo
     }
     // conversion route (consumes the error)
     let ioe: std::io::Error = e.into();
-    let conv_id = world::injected_id(&ioe);
+    let conv_id = world::fired_id(&ioe, fired);
     match cat {
         Cat::Syntax => {
             if ioe.kind() != std::io::ErrorKind::InvalidData {
@@ -472,10 +472,8 @@ pub fn digest_error(e: lexpr::parse::Error, seen: &Seen<'_>, fired: &[Fired], mo
         }
         Cat::Io => {
             // the conversion must hand back the very error that was injected
-            let id = conv_id;
-            let matches = |id: u64| fired.iter().any(|f| f.id == id && f.hard.map(|k| k.to_io()) == Some(ioe.kind()));
-            match id {
-                Some(id) if matches(id) => {}
+            match conv_id {
+                Some(_) => {}
                 _ => mon.violate(
                     "C19",
                     "O19.2",
